@@ -731,3 +731,240 @@ def url_resolve_reference(I, args, ins):
         r = url_parse(I, [up.urljoin(bs, rp)], ins)
         return r[0]
     raise Inconclusive('ResolveReference on symbolic URLs')
+
+
+# ------------------------------------------------------------------ request bodies, path values, json, templates, bcrypt
+from .xmlstubs import tag_bytes as _tag_bytes, bytes_info as _bytes_info
+
+OPAQUE_IMPLEMENTS['*verif.body'] = {'io.ReadCloser', 'io.Reader', 'io.Closer'}
+INVOKE_STUBS[('*verif.body', 'Close')] = lambda I, recv, args, ins: None
+
+
+@intrinsic('verifRequestBody')
+def i_request_body(I, args, ins):
+    ctx = I.ctx
+    method, rawurl, body, cookies = args
+    p = i_request(I, [method, rawurl, None, cookies], ins)
+    b = ctx.alloc(StructV([]), 'body')
+    ctx.ghost.setdefault('readers', {})[b.cell] = ('bytes', ctx.force(body))
+    r = ctx.load(p)
+    ctx.store_(p, r.with_field(I.prog.field_index(HTTPREQ, 'Body'), Iface('*verif.body', b)))
+    return p
+
+
+@stub('(*net/http.Request).SetPathValue')
+def req_setpathvalue(I, args, ins):
+    g = _req_ghost(I, args[0])
+    g.setdefault('path', []).append((args[1], args[2]))
+    return None
+
+
+@stub('(*net/http.Request).PathValue')
+def req_pathvalue(I, args, ins):
+    ctx = I.ctx
+    g = _req_ghost(I, args[0])
+    for k, v in reversed(g.get('path', [])):
+        if ctx.branch(I.eq(k, args[1])):
+            return v
+    return ''
+
+
+# encoding/json as an encoder/decoder pair over tagged bytes (same-type round trip is the identity)
+
+def _json_value(I, v):
+    ctx = I.ctx
+    v = ctx.force(v)
+    if not isinstance(v, Iface):
+        return (None, None)
+    if I.prog.kind(v.dyn) == 'ptr':
+        p = ctx.force(v.val)
+        t = I.prog.elem(v.dyn)
+        val = ctx.load(p) if p is not None else None
+        while val is not None and I.prog.kind(t) == 'ptr':
+            val = ctx.force(val)
+            t = I.prog.elem(t)
+            val = ctx.load(val) if val is not None else None
+        return (t, val)
+    return (v.dyn, v.val)
+
+
+@stub('encoding/json.Marshal')
+def json_marshal(I, args, ins):
+    t, val = _json_value(I, args[0])
+    return TupleV((_tag_bytes(I, ('json', t, val), 'json'), None))
+
+
+@stub('encoding/json.NewEncoder')
+def json_new_encoder(I, args, ins):
+    ctx = I.ctx
+    p = ctx.alloc(StructV([]), 'json.Encoder')
+    ctx.ghost.setdefault('jsonenc', {})[p.cell] = ctx.force(args[0])
+    return p
+
+
+@stub('(*encoding/json.Encoder).Encode')
+def json_encode(I, args, ins):
+    ctx = I.ctx
+    w = ctx.ghost['jsonenc'][ctx.force(args[0]).cell]
+    t, val = _json_value(I, args[1])
+    buf = _tag_bytes(I, ('json', t, val), 'json')
+    ctx.ghost.setdefault('json_written', []).append((t, val))
+    r = I.invoke(w, 'Write', [buf], ins)
+    return ctx.force(r[1])
+
+
+def _store_through(I, tgt, st, sv):
+    """Store value sv (of type st) through target pointer tgt (*T or **T), allocating as encoding does."""
+    ctx = I.ctx
+    t = I.prog.elem(tgt.dyn)
+    p = ctx.force(tgt.val)
+    while I.prog.kind(t) == 'ptr':
+        inner = ctx.force(ctx.load(p))
+        et = I.prog.elem(t)
+        if inner is None:
+            inner = ctx.alloc(I.prog.zero(et), 'decoded')
+            ctx.store_(p, inner)
+        p, t = inner, et
+    if st != t:
+        return False
+    ctx.store_(p, sv)
+    return True
+
+
+@stub('encoding/json.Unmarshal')
+def json_unmarshal(I, args, ins):
+    ctx = I.ctx
+    info = _bytes_info(I, args[0])
+    tgt = ctx.force(args[1])
+    if info is not None and info[0] == 'json' and isinstance(tgt, Iface) and I.prog.kind(tgt.dyn) == 'ptr':
+        if info[2] is not None and _store_through(I, tgt, info[1], info[2]):
+            return None
+        return ctx.new_error('json', msg='json: cannot unmarshal into target type')
+    if ctx.choose(2, 'json-err') == 1:
+        return ctx.new_error('json', msg='invalid character')
+    t = I.prog.elem(tgt.dyn)
+    ctx.store_(ctx.force(tgt.val), ctx.fresh(t, 'json'))
+    return None
+
+
+@stub('encoding/json.NewDecoder')
+def json_new_decoder(I, args, ins):
+    ctx = I.ctx
+    p = ctx.alloc(StructV([]), 'json.Decoder')
+    ctx.ghost.setdefault('jsondec', {})[p.cell] = ctx.force(args[0])
+    return p
+
+
+@stub('(*encoding/json.Decoder).Decode')
+def json_decode(I, args, ins):
+    ctx = I.ctx
+    r = ctx.ghost['jsondec'][ctx.force(args[0]).cell]
+    kind, c = reader_content_(I, r)
+    if kind == 'bytes':
+        return json_unmarshal(I, [c, args[1]], ins)
+    if ctx.choose(2, 'json-err') == 1:
+        return ctx.new_error('json', msg='invalid character')
+    tgt = ctx.force(args[1])
+    ctx.store_(ctx.force(tgt.val), ctx.fresh(I.prog.elem(tgt.dyn), 'json'))
+    return None
+
+
+def reader_content_(I, r):
+    from .base import reader_content
+    return reader_content(I, r)
+
+
+# html/template: output is escaped(template, data); text/template is not an escaping template
+
+@stub('(*html/template.Template).Execute')
+def html_template_execute(I, args, ins):
+    ctx = I.ctx
+    tmpl, w, data = args
+    data = ctx.force(data)
+    fields_ok = True
+    dv = None
+    if isinstance(data, Iface):
+        t = data.dyn
+        dv = data.val
+        if I.prog.kind(t) == 'ptr':
+            t = I.prog.elem(t)
+            dv = ctx.load(ctx.force(dv))
+        if I.prog.kind(t) == 'struct':
+            for f in I.prog.fields(t):
+                if f['t'] != 'string':
+                    fields_ok = False
+    ctx.ghost.setdefault('templates', []).append({'kind': 'html', 'data': dv, 'plain_string_fields': fields_ok})
+    body = _tag_bytes(I, ('html-escaped', dv), 'html')
+    r = I.invoke(ctx.force(w), 'Write', [body], ins)
+    return ctx.force(r[1])
+
+
+@stub('(*text/template.Template).Execute')
+def text_template_execute(I, args, ins):
+    ctx = I.ctx
+    tmpl, w, data = args
+    data = ctx.force(data)
+    dv = None
+    if isinstance(data, Iface):
+        dv = data.val
+        if I.prog.kind(data.dyn) == 'ptr':
+            dv = ctx.load(ctx.force(dv))
+    ctx.ghost.setdefault('templates', []).append({'kind': 'text', 'data': dv, 'plain_string_fields': True})
+    body = _tag_bytes(I, ('text-unescaped', dv), 'rawhtml')
+    r = I.invoke(ctx.force(w), 'Write', [body], ins)
+    return ctx.force(r[1])
+
+
+@stub('html/template.Must', 'text/template.Must')
+def template_must(I, args, ins):
+    if I.ctx.force(args[1]) is not None:
+        raise GoPanic('explicit', I.ctx.cur_pos, args[1])
+    return args[0]
+
+
+@stub('html/template.New', 'text/template.New')
+def template_new(I, args, ins):
+    ctx = I.ctx
+    p = ctx.alloc(StructV([]), 'template')
+    ctx.ghost.setdefault('template_objs', {})[p.cell] = {'pkg': ins['call']['fn']['n'].split('.')[0], 'name': args[0], 'text': None}
+    return p
+
+
+@stub('(*html/template.Template).Parse', '(*text/template.Template).Parse')
+def template_parse(I, args, ins):
+    ctx = I.ctx
+    p = ctx.force(args[0])
+    g = ctx.ghost.setdefault('template_objs', {}).setdefault(p.cell, {})
+    g['text'] = args[1]
+    return TupleV((p, None))
+
+
+# bcrypt: uninterpreted Match(hash, password)
+
+@stub('golang.org/x/crypto/bcrypt.GenerateFromPassword')
+def bcrypt_generate(I, args, ins):
+    ctx = I.ctx
+    pw = ctx.force(args[0])
+    pws = pw.s if isinstance(pw, SymBytes) else I.bytes_string(I.slice_elems(pw))
+    if ctx.choose(2, 'bcrypt-gen-err') == 1 and ctx.opts.get('bcrypt_may_fail'):
+        return TupleV((NIL_SLICE, ctx.new_error('bcrypt')))
+    return TupleV((_tag_bytes(I, ('bcrypt', pws), 'bcrypthash'), None))
+
+
+@stub('golang.org/x/crypto/bcrypt.CompareHashAndPassword')
+def bcrypt_compare(I, args, ins):
+    ctx = I.ctx
+    info = _bytes_info(I, args[0])
+    pw = ctx.force(args[1])
+    pws = pw.s if isinstance(pw, SymBytes) else I.bytes_string(I.slice_elems(pw))
+    if info is None or info[0] != 'bcrypt':
+        return ctx.new_error('bcrypt', msg='crypto/bcrypt: hashedSecret too short to be a bcrypted password')
+    if ctx.branch(I.eq(info[1], pws)):
+        return None
+    return ctx.new_error('bcrypt', msg='crypto/bcrypt: hashedPassword is not the hash of the given password')
+
+
+@stub('encoding/hex.EncodeToString')
+def hex_encode(I, args, ins):
+    from .base import hex_of_bytes
+    return hex_of_bytes(I, I.slice_elems(args[0]))
